@@ -247,6 +247,7 @@ class Script:
         self.snaps = ["g.tsg"]
         self.nfile = 0
         self.constr = False
+        self.hung = False
         self.tags = set()
 
     # --- files -------------------------------------------------------------------------------------------------
@@ -312,6 +313,7 @@ class Script:
             if os.path.exists(src):
                 shutil.copyfile(src, src + ".tool%d" % i)
         self.inv.append({"argv": argv, "cmd": cmd, "rc": rc, "out": so, "err": se, "outfile": outfile})
+        self.hung = self.hung or rc == -9
         return rc == 0
 
 
@@ -497,6 +499,8 @@ def query(s, r, st, dom, cmd=None):
         opts.append(("type", r.choice(["iptotal", "ipcurved", "qptotal", "level", "curved"])))
         if kind == "global" or r.random() < 0.5:
             opts.append(("rout", r.randrange(max(1, st["outs"])) if (kind == "global" and st["outs"] > 1) or r.random() < 0.5 else -1))
+    if cmd == "getcoefficients" and kind == "fourier":
+        s.tags.add("getcoeff-fourier")
     so, of = sink_opts(s, r, force=True)
     opts += so
     r.shuffle(opts)
@@ -661,8 +665,8 @@ def gen_script(s, r, flavor):
     guard = 0
     while len(s.inv) < target and guard < 14:
         guard += 1
-        st = s.probe()
-        if not st.get("ok"):
+        st = s.probe() if not s.hung else {"ok": False}
+        if not st.get("ok") or st["loaded"] + st["needed"] > 1500:
             break
         x = r.random()
         fresh = st["loaded"] == 0 and st["needed"] > 0 and st["outs"] > 0 and not s.constr
@@ -776,6 +780,15 @@ def witness_scripts():
                                              "-outputfile", "c.out"],
                                       ["-evalhierarchyd", "-gridfile", "g.tsg", "-xfile", "x.txt", "-print"]],
               {"x.txt": [[0.25], [0.5]]}, {}))
+    W.append(("w-getcoefficients-fourier-print", [["-makefourier", "-dimensions", "1", "-outputs", "1", "-depth", "1", "-type", "level",
+                                                   "-gridfile", "g.tsg"],
+                                                  ["-loadvalues", "-gridfile", "g.tsg", "-valsfile", "v.txt"],
+                                                  ["-getcoefficients", "-gridfile", "g.tsg", "-print"]],
+              {"v.txt": [[math.exp(math.cos(2 * math.pi * p[0]) + 0.5 * math.sin(2 * math.pi * p[0]))] for p in fpts]}, {}))
+    W.append(("w-sparse-output-empty", [["-makelocalpoly", "-dimensions", "1", "-outputs", "1", "-depth", "2", "-order", "1", "-onedim",
+                                         "localp-zero", "-gridfile", "g.tsg"],
+                                        ["-evalhierarchys", "-gridfile", "g.tsg", "-xfile", "xo.txt", "-outputfile", "s.out", "-ascii"]],
+              {"xo.txt": [[5.0]]}, {}))
     return W
 
 
@@ -822,6 +835,11 @@ def known_key(s_tags, inv, what, api_status, tables):
         return "setcoefficients-fourier-layout"
     if inv.get("zero_cols") and inv.get("rc") in (-11, -6) and what == "status":
         return "zero-column-matrix-output-crash"
+    if cmd == "evalhierarchys" and inv.get("rc") == -11 and what == "status" and inv.get("empty_sparse") and \
+            (has("-ascii") or has("-p", "-print")):
+        return "sparse-output-empty-crash"
+    if cmd == "getcoefficients" and what == "stdout" and "getcoeff-fourier" in s_tags and tables.get("complex_print_defect"):
+        return "getcoefficients-fourier-print"
     return None
 
 
@@ -832,6 +850,11 @@ def compare_script(sc, api_status, runner, counters):
         ast = api_status.get(i, "missing")
         tool_ok = inv["rc"] == 0
         api_ok = ast == "ok"
+        if ast == "not run":
+            return None
+        if inv["rc"] == -99:
+            counters["timeouts"] += 1
+            return None
         if ast.startswith("crash timeout") or (inv["rc"] == -9 and not api_ok):
             # the library does not return (both sides call the same code; e.g. anisotropic refinement with saturated level
             # limits): not a difference between the tool and the API; stop judging this script and count it
@@ -882,7 +905,7 @@ def compare_script(sc, api_status, runner, counters):
                         ma, mb = read_matrix(a), read_matrix(b)
                         return i, "output", "binary output %s differs: tool %s api %s" % (
                             of, ma and (ma[0], ma[1], ma[2][:4]), mb and (mb[0], mb[1], mb[2][:4]))
-                    if inv["cmd"] != "evalhierarchys":
+                    if inv["cmd"] != "evalhierarchys" and len(ba) <= 200000:
                         rc, so, se = vlib.run([runner, "matcheck", a], timeout=60)
                         counters["matrix_files_model_checked"] += 1
                         if not so.startswith("ok"):
@@ -905,6 +928,70 @@ def compare_script(sc, api_status, runner, counters):
     return None
 
 
+def _restore_pre_state(src_dir, dst_dir, snaps, i, suffix):
+    shutil.rmtree(dst_dir, ignore_errors=True)
+    shutil.copytree(src_dir, dst_dir)
+    for g in snaps:
+        pre = os.path.join(src_dir, "%s.%s%d" % (g, suffix, i - 1))
+        dst = os.path.join(dst_dir, g)
+        if i > 0 and os.path.exists(pre):
+            shutil.copyfile(pre, dst)
+        elif os.path.exists(dst):
+            os.remove(dst)
+
+
+def _rd(path):
+    try:
+        return open(path, "rb").read()
+    except OSError:
+        return None
+
+
+def self_consistent(sc, i, drv, runner, base):
+    """Re-execute invocation i on BOTH sides from its own pre-state with two different fill patterns for malloc'ed and
+    freed memory (glibc MALLOC_PERTURB_).  A side that disagrees with itself reads uninitialised or freed memory inside
+    the library: the outcome of that invocation is not a function of its inputs, so it cannot be compared.
+    returns (consistent: bool, description)"""
+    inv = sc.inv[i]
+    of = inv["outfile"]
+    orig_t = (inv["rc"] == 0, [_rd(os.path.join(sc.dt, "%s.tool%d" % (g, i))) for g in sc.snaps],
+              _rd(os.path.join(sc.dt, of)) if of else None, inv["out"])
+    for p in ("85", "170"):
+        d = os.path.join(base, "redoT" + p)
+        _restore_pre_state(sc.dt, d, sc.snaps, i, "tool")
+        env = dict(os.environ, MALLOC_PERTURB_=p)
+        try:
+            q = subprocess.run([sc.tool] + inv["argv"], cwd=d, capture_output=True, timeout=40, env=env)
+            got = (q.returncode == 0, [_rd(os.path.join(d, g)) for g in sc.snaps], _rd(os.path.join(d, of)) if of else None,
+                   q.stdout.decode(errors="replace"))
+        except subprocess.TimeoutExpired:
+            got = (False, None, None, "")
+        shutil.rmtree(d, ignore_errors=True)
+        if got[0] != orig_t[0] or (got[0] and got != orig_t):
+            return False, "the tool itself gives a different result for this invocation when malloc fills memory with 0x%02x" % int(p)
+    orig_a = None
+    for p in ("0", "85", "170"):
+        d = os.path.join(base, "redoA" + p)
+        _restore_pre_state(sc.da, d, sc.snaps, i, "api")
+        sf = os.path.join(base, "redo.txt")
+        with open(sf, "w") as fh:
+            fh.write("snap " + " ".join(sc.snaps) + "\n" + " ".join(inv["argv"]) + "\n")
+        env = dict(os.environ)
+        if p != "0":
+            env["MALLOC_PERTURB_"] = p
+        rc, so, se = vlib.run([drv, runner, sf, d], timeout=60, env=env)
+        m = re.search(r"inv 0 (.*)", so)
+        st = m.group(1).strip() if (m and rc == 0) else "crash"
+        got = (st == "ok", [_rd(os.path.join(d, g + ".api0")) for g in sc.snaps], _rd(os.path.join(d, of)) if of else None,
+               _rd(os.path.join(d, "stdout.api0")))
+        shutil.rmtree(d, ignore_errors=True)
+        if orig_a is None:
+            orig_a = got
+        elif got[0] != orig_a[0] or (got[0] and got != orig_a):
+            return False, "the library call sequence itself gives a different result when malloc fills memory with 0x%02x" % int(p)
+    return True, ""
+
+
 def run_api(sc, drv, runner, base):
     sf = os.path.join(base, "script.txt")
     with open(sf, "w") as fh:
@@ -912,8 +999,18 @@ def run_api(sc, drv, runner, base):
         for inv in sc.inv:
             fh.write(" ".join(inv["argv"]) + "\n")
     status, first, rc, se = {}, 0, 0, ""
-    while first < len(sc.inv):
-        rc, so, se = vlib.run([drv, runner, sf, sc.da, str(first)], timeout=120)
+    # an invocation on which the tool did not return is given the same budget on the API side (both call the same
+    # library code); nothing after it is executed
+    hang = next((k for k, inv in enumerate(sc.inv) if inv["rc"] == -9), None)
+    last = len(sc.inv) if hang is None else hang + 1
+    sfr = os.path.join(base, "script.run.txt")
+    with open(sfr, "w") as fh:
+        fh.write("snap " + " ".join(sc.snaps) + "\n")
+        for inv in sc.inv[:last]:
+            fh.write(" ".join(inv["argv"]) + "\n")
+    while first < last:
+        budget = 120 if hang is None else 30 + 5 * hang
+        rc, so, se = vlib.run([drv, runner, sfr, sc.da, str(first)], timeout=budget)
         for line in so.split("\n"):
             m = re.match(r"inv (\d+) (.*)", line)
             if m:
@@ -922,7 +1019,7 @@ def run_api(sc, drv, runner, base):
             break
         # the library crashed (or hung) inside an invocation: record it and resume with the next one
         k = max(status) + 1 if status else first
-        if k >= len(sc.inv) or rc > 0:
+        if k >= last or rc > 0:
             break
         status[k] = "crash signal %s" % (-rc) if rc != -9 else "crash timeout"
         for g in sc.snaps:
@@ -930,6 +1027,8 @@ def run_api(sc, drv, runner, base):
                 shutil.copyfile(os.path.join(sc.da, g), os.path.join(sc.da, g + ".api%d" % k))
         first = k + 1
         rc = 0
+    for k in range(last, len(sc.inv)):
+        status[k] = "not run"
     return rc, status, se
 
 
@@ -965,10 +1064,10 @@ def fixed_script(sid, invs, files, tool, base, r):
             st = sc.probe(sc.snaps[0])
             if st.get("kind") == "fourier":
                 sc.tags.add("refine-fourier")
-        if sc.inv[-1]["cmd"] == "setcoefficients":
+        if sc.inv[-1]["cmd"] in ("setcoefficients", "getcoefficients"):
             st = sc.probe(sc.snaps[0])
             if st.get("kind") == "fourier":
-                sc.tags.add("setcoeff-fourier")
+                sc.tags.add("setcoeff-fourier" if sc.inv[-1]["cmd"] == "setcoefficients" else "getcoeff-fourier")
     return sc
 
 
@@ -998,14 +1097,33 @@ def one_script(idx, seed, tool, drv, runner, replay_obj=None, witness=None):
         flavor = r.choice(FLAVORS)
         sc = Script(idx, r, tool, base)
         gen_script(sc, r, flavor)
-    counters = {k: 0 for k in ("grid_files_compared", "output_files_compared", "stdout_compared", "accepted_by_both", "rejected_by_both",
+    nondet = None
+    counters = {k: 0 for k in ("nondeterministic", "grid_files_compared", "output_files_compared", "stdout_compared", "accepted_by_both", "rejected_by_both",
                                "matrix_files_model_checked", "refused_with_side_effect", "timeouts")}
     rc, status, se = run_api(sc, drv, runner, base)
+    hang = next((k for k, inv in enumerate(sc.inv) if inv["rc"] == -9), None)
+    if hang is not None and status.get(hang) == "ok":
+        # the tool ran out of its budget where the library calls returned: a hang is claimed only after a second run of
+        # the tool from the same pre-state with 10x the budget
+        d = os.path.join(base, "redoH")
+        _restore_pre_state(sc.dt, d, sc.snaps, hang, "tool")
+        try:
+            subprocess.run([tool] + sc.inv[hang]["argv"], cwd=d, capture_output=True, timeout=200)
+            sc.inv[hang]["rc"] = -99          # slow, not hanging: not judged
+        except subprocess.TimeoutExpired:
+            pass
+        shutil.rmtree(d, ignore_errors=True)
     div = None
     if rc != 0:
         div = (0, "driver", "clidrv failed: rc=%s %s" % (rc, se[-300:]))
     else:
         div = compare_script(sc, status, runner, counters)
+        if div and div[1] in ("status", "grid", "output", "stdout") and div[0] < len(sc.inv):
+            okc, why = self_consistent(sc, div[0], drv, runner, base)
+            if not okc:
+                counters["nondeterministic"] += 1
+                nondet = {"script": [i_["argv"] for i_ in sc.inv], "invocation": div[0], "why": why, "difference": div[2][:200]}
+                div = None
     text = "\n".join(" ".join(i["argv"]) for i in sc.inv)
     zero_cols = False
     if div and div[1] == "status" and div[0] < len(sc.inv):
@@ -1016,7 +1134,16 @@ def one_script(idx, seed, tool, drv, runner, replay_obj=None, witness=None):
             m = read_matrix(c)
             if m and m[0] > 0 and m[1] == 0:
                 zero_cols = True
-    res = {"idx": idx, "zero_cols": zero_cols, "wall": round(time.time() - t0, 2), "flavor": flavor, "ninv": len(sc.inv), "commands": [i["cmd"] for i in sc.inv], "counters": counters,
+    empty_sparse = False
+    if div and div[1] == "status" and div[0] < len(sc.inv) and sc.inv[div[0]]["cmd"] == "evalhierarchys":
+        for c in [os.path.join(sc.da, "stdout.api%d" % div[0])] + ([os.path.join(sc.da, sc.inv[div[0]]["outfile"])] if sc.inv[div[0]]["outfile"] else []):
+            b = _rd(c) or b""
+            if b[:3] == b"TSG" and len(b) >= 15:
+                empty_sparse = empty_sparse or struct.unpack("<iii", b[3:15])[2] == 0
+            else:
+                t = b.split()
+                empty_sparse = empty_sparse or (len(t) >= 3 and t[2] == b"0")
+    res = {"idx": idx, "zero_cols": zero_cols, "nondet": nondet, "empty_sparse": empty_sparse, "wall": round(time.time() - t0, 2), "flavor": flavor, "ninv": len(sc.inv), "commands": [i["cmd"] for i in sc.inv], "counters": counters,
            "hash": hashlib.sha256(text.encode()).hexdigest()[:16], "div": div, "api_status": status,
            "record": script_record(sc) if div else None, "tags": sorted(sc.tags), "text": text,
            "inv_meta": [{"cmd": i["cmd"], "argv": i["argv"], "err": i["err"][-400:], "rc": i["rc"]} for i in sc.inv] if div else None,
@@ -1120,6 +1247,12 @@ def read_tables(runner):
     except OSError:
         t["mq_localp_defect"] = False
     try:
+        w = vlib.repo_file("Tasgrid/tasgridWrapper.cpp")
+        m = re.search(r"void TasgridWrapper::printMatrix\(.*?\n\}", w, re.S)
+        t["complex_print_defect"] = bool(m) and "matrix(cols, mat)" in m.group(0)
+    except OSError:
+        t["complex_print_defect"] = False
+    try:
         lib = vlib.repo_file("SparseGrids/TasmanianSparseGrid.cpp")
         t["vector_overload_fixed"] = "size_t nscale = (size_t) base->getNumNeeded();" not in lib
     except OSError:
@@ -1197,7 +1330,7 @@ def run(res, tier, seed, replay_obj=None):
             disagreements += 1
             i, what, detail = rr["div"]
             meta = rr["inv_meta"][i] if rr["inv_meta"] and i < len(rr["inv_meta"]) else {"cmd": "?", "argv": [], "err": "", "rc": None}
-            inv = {"cmd": meta["cmd"], "argv": meta["argv"], "err": meta["err"], "rc": meta["rc"], "zero_cols": rr.get("zero_cols")}
+            inv = {"cmd": meta["cmd"], "argv": meta["argv"], "err": meta["err"], "rc": meta["rc"], "zero_cols": rr.get("zero_cols"), "empty_sparse": rr.get("empty_sparse")}
             key = known_key(set(rr["tags"]), inv, what, rr["api_status"].get(i), tables) or ("%s/%s" % (meta["cmd"], what))
             rec = dict(rr["record"] or {})
             rec.update({"kind": "impl-counterexample", "first_divergence": i, "what": what, "detail": detail,
@@ -1260,6 +1393,7 @@ def run(res, tier, seed, replay_obj=None):
         "commands_exercised": "%d/%d" % (len(ran_cmds), int(tables.get("commands", 0))),
         "commands_not_exercised": sorted(set(first_switch[c] for c in exercised_table if c in first_switch) - {first_switch.get(c, c) for c in ran_cmds}),
         "switch_strings_exercised": "%d/%d" % (len(ran_switches & set(lookup)), len(lookup)),
+        "nondeterministic_cases": [rr["nondet"] for rr in results if rr.get("nondet")][:5],
         "alias_direct_checks": nalias, "translator_ok": tr_ok, "stale_model_used": stale_model, "valgrind_checks": 0 if vg is None else 1,
         "slowest_scripts": sorted(((rr["wall"], str(rr["idx"]), rr["text"].split("\n")[-1][:120]) for rr in results), reverse=True)[:3],
     })
